@@ -128,6 +128,19 @@ def run(ctx):
             ctx.timing_unstable += len(suspects) - n0 - len(keep)
             del suspects[n0:]
             suspects.extend(keep)
+    # (f) the configuration matrix: the same reaction must get the same row whatever the source form, cache state, object history
+    import matrix
+    seen = {}
+    for run in matrix.runs(ctx):
+        if run["error"] or "threshold 0.5" in run["config"] or "fed in again" in run["config"] or len(run["rows"]) != len(run["given"]):
+            continue
+        ctx.count("contexts", "matrix_runs")
+        for g, r in zip(run["given"], run["rows"]):
+            ctx.evaluations += 1
+            k5 = json.dumps([r["input_reaction"], r["reaction"], r["solved"], r["solved_by"], r["issue"] or None], sort_keys=True)
+            if g in seen and seen[g][0] != k5:
+                ctx.fail("row-depends-on-configuration", {"input": g, "context": run["config"], "other_context": seen[g][1]}, {"here": json.loads(k5), "there": json.loads(seen[g][0])})
+            seen.setdefault(g, (k5, run["config"]))
     ctx.count("contexts", "orders", len(res["perms"]))
     ctx.count("contexts", "batch_sizes", len(sizes))
     # reproducibility filter
